@@ -6,7 +6,7 @@ A *script* is a Python function `f(ctx, **params)`; it is run twice, once agains
 side's outputs, so tampering, routing and control flow are interpreted by each side on its own
 registers.  Every call is recorded; `ctx.expect(cond, what)` records the property's own oracle.
 """
-import hashlib, json, os, queue, random, subprocess, sys, threading, time
+import hashlib, json, os, queue, random, select, subprocess, sys, threading, time
 from concurrent.futures import ThreadPoolExecutor
 
 ROOT = os.path.dirname(os.path.dirname(os.path.abspath(__file__)))
@@ -67,41 +67,61 @@ def unhx(t):
 
 
 class Proc:
+    """one line-server child process; request/response over pipes, with a timeout by select() (no helper threads)"""
     def __init__(s, path, name):
         s.path, s.name = path, name
         s.start()
 
     def start(s):
-        s.p = subprocess.Popen([s.path], stdin=subprocess.PIPE, stdout=subprocess.PIPE,
-                               stderr=subprocess.DEVNULL, text=True, bufsize=1)
+        s.p = subprocess.Popen([s.path], stdin=subprocess.PIPE, stdout=subprocess.PIPE, stderr=subprocess.DEVNULL, bufsize=0)
+        s.fd_in = s.p.stdin.fileno()
+        s.fd_out = s.p.stdout.fileno()
+        s.buf = b""
         s.n = 0
+
+    def _readline(s, timeout):
+        deadline = time.time() + timeout
+        while True:
+            i = s.buf.find(b"\n")
+            if i >= 0:
+                line, s.buf = s.buf[:i], s.buf[i + 1:]
+                return line.decode()
+            left = deadline - time.time()
+            if left <= 0:
+                return None
+            r, _, _ = select.select([s.fd_out], [], [], left)
+            if not r:
+                return None
+            chunk = os.read(s.fd_out, 1 << 16)
+            if not chunk:
+                return ""
+            s.buf += chunk
 
     def call(s, suite, op, args, timeout=120.0):
         s.n += 1
         tag = "q%d" % s.n
-        line = " ".join([tag, suite, op] + list(args)) + "\n"
-        res = [None]
-
-        def rd():
-            try:
-                s.p.stdin.write(line)
-                s.p.stdin.flush()
-                res[0] = s.p.stdout.readline()
-            except Exception as e:  # broken pipe
-                res[0] = ""
-        th = threading.Thread(target=rd, daemon=True)
-        th.start()
-        th.join(timeout)
-        if th.is_alive():
-            s.p.kill()
-            s.start()
-            return ("TIMEOUT", "")
-        out = res[0]
-        if not out:
+        line = (" ".join([tag, suite, op] + list(args)) + "\n").encode()
+        try:
+            view = memoryview(line)
+            while view:
+                # a large request may fill the pipe while the child is still writing nothing: plain blocking write is fine,
+                # the child reads a whole line before answering
+                w = os.write(s.fd_in, view[:1 << 16])
+                view = view[w:]
+        except OSError:
             rc = s.p.poll()
             s.start()
             return ("CRASH", "exit=%s" % rc)
-        parts = out.rstrip("\n").split(" ")
+        out = s._readline(timeout)
+        if out is None:
+            s.p.kill()
+            s.start()
+            return ("TIMEOUT", "")
+        if out == "":
+            rc = s.p.poll()
+            s.start()
+            return ("CRASH", "exit=%s" % rc)
+        parts = out.split(" ")
         if parts[0] != tag:
             return ("CRASH", "desync:" + out[:80])
         if parts[1] == "OK":
